@@ -130,7 +130,8 @@ impl std::fmt::Debug for P {
     }
 }
 
-pub fn m_fmt(a: &P, f: &mut std::fmt::Formatter<'_>) -> std::fmt::Result {
+pub fn m_fmt<X: AsP>(a: &X, f: &mut std::fmt::Formatter<'_>) -> std::fmt::Result {
+    let a = a.p();
     log_un("fmt", "method", a, "0");
     if f.alternate() {
         write!(f, "M{}", a.v)
@@ -346,40 +347,80 @@ pub fn run_default<T: Case + Default, W: Write>(out: &mut Out<W>, new_fn: Option
 // ---------------------------------------------------------------- custom methods
 // Deliberately different from the own impls, and asymmetric.
 
-pub fn m_eq(a: &P, b: &P) -> bool {
+/// a probe, or a reference to one: the custom methods take the field as it is declared
+pub trait AsP {
+    fn p(&self) -> &P;
+}
+impl AsP for P {
+    fn p(&self) -> &P {
+        self
+    }
+}
+impl AsP for &P {
+    fn p(&self) -> &P {
+        self
+    }
+}
+impl AsP for &mut P {
+    fn p(&self) -> &P {
+        self
+    }
+}
+
+pub fn m_eq<X: AsP>(a: &X, b: &X) -> bool {
+    let (a, b) = (a.p(), b.p());
     let r = (a.v + 1) % 3 == b.v;
     log_bin("eq", "method", a, b, if r { "true" } else { "false" });
     r
 }
 
 /// custom ordering: the reverse of the own order (and total: NAN sorts as 9)
-pub fn m_cmp(a: &P, b: &P) -> Ordering {
+pub fn m_cmp<X: AsP>(a: &X, b: &X) -> Ordering {
+    let (a, b) = (a.p(), b.p());
     let r = b.v.cmp(&a.v);
     log_bin("cmp", "method", a, b, &format!("\"{}\"", ord_name(r)));
     r
 }
 
 /// custom partial ordering: reversed; incomparable when either side is NAN
-pub fn m_pcmp(a: &P, b: &P) -> Option<Ordering> {
+pub fn m_pcmp<X: AsP>(a: &X, b: &X) -> Option<Ordering> {
+    let (a, b) = (a.p(), b.p());
     let r = own_pcmp(b.v, a.v);
     log_bin("partial_cmp", "method", a, b, &format!("\"{}\"", pord_name(r)));
     r
 }
 
-pub fn m_hash<H: Hasher>(a: &P, state: &mut H) {
+pub fn m_hash<X: AsP, H: Hasher>(a: &X, state: &mut H) {
+    let a = a.p();
     log_un("hash", "method", a, "0");
     state.write_u8(0xB0);
     state.write_i8(a.v + 100);
 }
 
-pub fn m_clone(a: &P) -> P {
-    log_un("clone", "method", a, "0");
-    P {
-        s: a.s,
-        f: a.f,
-        v: a.v,
-        g: G_METHOD,
+/// what the custom clone method produces for a field of this type: a fresh probe of generation G_METHOD
+/// (for a reference field: a reference to a fresh, leaked one)
+pub trait CloneVia: Sized {
+    fn via_method(&self) -> Self;
+}
+impl CloneVia for P {
+    fn via_method(&self) -> P {
+        P {
+            s: self.s,
+            f: self.f,
+            v: self.v,
+            g: G_METHOD,
+        }
     }
+}
+impl CloneVia for &'static P {
+    fn via_method(&self) -> &'static P {
+        Box::leak(Box::new(P::via_method(self)))
+    }
+}
+
+pub fn m_clone<X: CloneVia + AsP>(a: &X) -> X {
+    log_un("clone", "method", a.p(), "0");
+    a.via_method()
 }
 
 // ---------------------------------------------------------------- recording hasher
@@ -413,7 +454,8 @@ impl Hasher for RecHasher {
     }
 
     fn write_u64(&mut self, i: u64) {
-        self.feed.push(format!("\"u64:{}\"", i));
+        // (the four 8-byte integer writes reach a streaming hasher as the same bytes: one class)
+        self.feed.push(format!("\"w8:{}\"", i));
     }
 
     fn write_u128(&mut self, i: u128) {
@@ -421,7 +463,7 @@ impl Hasher for RecHasher {
     }
 
     fn write_usize(&mut self, i: usize) {
-        self.feed.push(format!("\"usize:{}\"", i));
+        self.feed.push(format!("\"w8:{}\"", i as u64));
     }
 
     fn write_i8(&mut self, i: i8) {
@@ -437,7 +479,7 @@ impl Hasher for RecHasher {
     }
 
     fn write_i64(&mut self, i: i64) {
-        self.feed.push(format!("\"i64:{}\"", i));
+        self.feed.push(format!("\"w8:{}\"", i as u64));
     }
 
     fn write_i128(&mut self, i: i128) {
@@ -445,7 +487,7 @@ impl Hasher for RecHasher {
     }
 
     fn write_isize(&mut self, i: isize) {
-        self.feed.push(format!("\"isize:{}\"", i));
+        self.feed.push(format!("\"w8:{}\"", i as u64));
     }
 }
 
